@@ -5,6 +5,7 @@ import NmVerif.Lemmas.LinalgTrace
   Lemmas for tensordot of C16.
 -/
 namespace NmVerif
+open NmVerif.MB
 open Linalg
 
 theorem broadcastShape_append_same (x y : Shape) : ∀ (n : Nat) (C : Shape), C.length = n →
